@@ -157,8 +157,10 @@ def run(ctx):
                           {"stream": "C12-history", "input": {"seed": seed, "query": q, "inputs": p, "other": other}, "stderr": err[-2000:]})
         i = bad + 1
     # a query compiled after another one in the same process behaves as when compiled alone in a fresh process
-    pool = STATEFUL + ["1 2 3 `[4]", "7 8 9 ``[5]", "1 2 3 4 ```[5]", "`[1, 2]", "1 ``[]", '"%( 1 %) %( "(" %)"', "let A := 1; A"]
-    pairs = [(a, b) for a in pool[-7:] for b in pool[-7:]] + [(rng.choice(pool), rng.choice(pool)) for _ in range(60)]
+    pool = STATEFUL + ["1 2 3 `[4]", "7 8 9 ``[5]", "1 2 3 4 ```[5]", "`[1, 2]", "1 ``[]", '"%( 1 %) %( "(" %)"', "let A := 1; A",
+                       # regular expressions, valid and invalid (anything kept from one use to the next shows here)
+                       '"foo" "fo+" ?match', '"foo" ("fo(", "fo(") ?match', '"foo" ("fo+", "fo(", "fo(") ?match', '"foo" "x" !match']
+    pairs = [(a, b) for a in pool[-11:] for b in pool[-11:]] + [(rng.choice(pool), rng.choice(pool)) for _ in range(60)]
     cross_ok = 0
     for a, b in pairs:
         if ctx.replay:
